@@ -51,3 +51,11 @@ Print Assumptions C12_int_sum_no_wrap.
 Example C12_example :
   wrapped_sum [2 ^ 62; 2 ^ 62; 2 ^ 62; - 2 ^ 62; - 2 ^ 62] = 2 ^ 62 /\ wrap64 (2 ^ 63) = - 2 ^ 63.
 Proof. split; vm_compute; reflexivity. Qed.
+
+(* Tie B (pins): the functions this property's models transcribe read, statement by statement, as they did when the models
+   were written against them; Gen/SourcesGen.v is regenerated from /repo on every run (translator/pins.py). *)
+From GL Require Import Gen.SourcesGen Model.Sources Proofs.PinC12.
+Theorem C12_modelled_functions_are_the_source's :
+  gen_src_group_func_wrap = src_group_func_wrap.
+Proof. exact pin_group_func_wrap. Qed.
+Print Assumptions C12_modelled_functions_are_the_source's.
